@@ -812,7 +812,9 @@ def addconj(lam, ur, ur_inv):
         if np.any(lam.imag < 0.0):
             return lam, ur, ur_inv
         two = ur_inv[conj2[0]] @ ur[:, conj2[0]]
-        if abs(two - 2.0) > 1e-13:
+        # (ur_inv comes from inverting ur, so the product is accurate only to
+        # eps*cond(ur); a missing factor of 2 gives 1.0 here)
+        if abs(two - 2.0) > 1e-6:
             raise ValueError(
                 "factor of 2.0 seems to be missing: "
                 f"error on first underdamped mode = {abs(two - 2.0)}"
